@@ -23,6 +23,7 @@ type Clause struct {
 type LemmaUse struct {
 	Anchor string // "entry", "return", "call:Name#k"
 	Name   string
+	Guard  *Expr // optional: "lemma @return name(args) if guard"
 	Args   []*Expr
 	Line   int
 }
@@ -375,6 +376,15 @@ func ParseSpecFile(path string) (*SpecFile, error) {
 					anchor = t[1:j]
 					t = strings.TrimSpace(t[j:])
 				}
+				var guard *Expr
+				if gi := strings.Index(t, ") if "); gi >= 0 {
+					g, err := ParseExpr(t[gi+5:])
+					if err != nil {
+						return nil, perr(err)
+					}
+					guard = g
+					t = t[:gi+1]
+				}
 				e, err := ParseExpr(t)
 				if err != nil {
 					return nil, perr(err)
@@ -382,7 +392,7 @@ func ParseSpecFile(path string) (*SpecFile, error) {
 				if e.Kind != "call" {
 					return nil, perr(fmt.Errorf("lemma use must be a call"))
 				}
-				cur.Lemmas = append(cur.Lemmas, &LemmaUse{Anchor: anchor, Name: e.Name, Args: e.Args, Line: rc.line})
+				cur.Lemmas = append(cur.Lemmas, &LemmaUse{Anchor: anchor, Name: e.Name, Args: e.Args, Guard: guard, Line: rc.line})
 			case "assert":
 				t := rc.text
 				anchor := "return"
